@@ -25,8 +25,9 @@ func main() {
 const prelude = `
 var N = ["a","b","c","d"];
 var LOG = [];
-var A = [{}, {}, {}];
-var V = [A[0], A[1], A[2]];
+var A = [Object.prototype, {}, {}, {}];
+var V = [A[1], A[2], A[3], A[0]];
+var BUILTIN = Object.getOwnPropertyNames(Object.prototype);
 var HOP = Object.prototype.hasOwnProperty, PIE = Object.prototype.propertyIsEnumerable;
 function enc(v) {
   if (v === undefined) return 0;
@@ -52,13 +53,17 @@ var F = [mkF(0), mkF(1), mkF(2), mkF(3)];
 function fid(f) { if (f === undefined) return 0; var k = F.indexOf(f); return k < 0 ? 99 : k + 1; }
 function pack(l) {
   var s = "";
-  for (var i = 0; i < l.length; i++) { var k = N.indexOf(l[i]); s += (k < 0 ? "9" : String(k + 1)); }
+  for (var i = 0; i < l.length; i++) {
+    var k = N.indexOf(l[i]);
+    if (k < 0 && BUILTIN.indexOf(l[i]) >= 0) continue; // the built-in members of Object.prototype are not modelled
+    s += (k < 0 ? "9" : String(k + 1));
+  }
   return s === "" ? "0" : s;
 }
 function B(x) { return x === true ? 1 : 0; }
 function SNAP() {
   var out = [];
-  for (var i = 0; i < 3; i++) {
+  for (var i = 0; i < 4; i++) {
     var o = V[i];
     for (var n = 0; n < 4; n++) {
       var nm = N[n];
@@ -302,7 +307,7 @@ func entriesJS(l []entry, hidden int) string {
 		return lit
 	}
 	inh := fmt.Sprintf("{%s: {value: 77, enumerable: true}}", names[free[0]])
-	src := fmt.Sprintf("(function () { var P = Object.create(%s); var L = %s; for (var k in L) P[k] = L[k]; ", inh, lit)
+	src := fmt.Sprintf("(function () { var P = Object.create(%s); var L = %s; Object.keys(L).forEach(function (k) { Object.defineProperty(P, k, {value: L[k], writable: true, enumerable: true, configurable: true}); }); ", inh, lit)
 	if len(free) > 1 && hidden > 1 {
 		src += fmt.Sprintf("Object.defineProperty(P, %q, {value: {value: 78, enumerable: true}, enumerable: false}); ", names[free[1]])
 	}
@@ -611,13 +616,17 @@ func (g *gen) randomOp(hotO, hotN int) op {
 		o = g.intn(3)
 	}
 	n := g.name(hotN)
-	switch k := g.intn(100); {
+	k := g.intn(100)
+	if g.intn(9) == 0 && (k < 45 || (k >= 53 && k < 83) || k >= 95) {
+		o = 3 // Object.prototype itself: define / assign / delete / enumerate (it is never frozen or re-bound)
+	}
+	switch {
 	case k < 38:
 		return op{kind: "define", o: o, n: n, d: g.descriptor()}
 	case k < 45:
 		return op{kind: "defines", o: o, l: g.entries(), hidden: g.hiddenKind()}
 	case k < 53:
-		p := g.intn(4) - 1
+		p := g.intn(5) - 1
 		c := op{kind: "create", o: g.intn(3), p: p}
 		if g.intn(3) == 0 {
 			c.hasL, c.l, c.hidden = true, g.entries(), g.hiddenKind()
@@ -636,7 +645,7 @@ func (g *gen) randomOp(hotO, hotN int) op {
 	default:
 		f := op{kind: "forindel", o: o, atN: n, o2: o, delN: g.intn(4)}
 		if g.intn(4) == 0 {
-			f.o2 = g.intn(3)
+			f.o2 = g.intn(4)
 		}
 		return f
 	}
@@ -819,6 +828,49 @@ func pinned() [][]op {
 	}
 }
 
+// Object.prototype as the last member of (nearly) every chain: an enumerable or non-enumerable data or
+// accessor property installed on it, before or after the chain is built, seen through a plain {},
+// through two Object.create links, directly below it, and not at all through Object.create(null);
+// then shadowed, removed again, enumerated with a deleting body.  Deterministic: every seed runs all.
+func objectPrototypeFamily() [][]op {
+	num := func(z int) val { return val{4, z} }
+	installs := [][]op{
+		{{kind: "put", o: 3, n: 0, v: num(1)}},
+		{{kind: "define", o: 3, n: 0, d: desc{hasValue: true, value: num(1), w: 1, e: 1, c: 1}}},
+		{{kind: "define", o: 3, n: 0, d: desc{get: 3, set: 4, e: 1, c: 1}}},
+		{{kind: "define", o: 3, n: 0, d: desc{hasValue: true, value: num(1), w: 1, e: 2, c: 1}}},
+		{{kind: "defines", o: 3, l: []entry{{0, desc{hasValue: true, value: num(1), e: 1, c: 1}}, {1, desc{get: 3, e: 1, c: 1}}}}},
+		{{kind: "put", o: 3, n: 0, v: num(1), with: true}, {kind: "put", o: 3, n: 3, v: num(4)}},
+	}
+	shapes := [][]op{
+		{},
+		{{kind: "create", o: 1, p: 0}, {kind: "create", o: 2, p: 1}},
+		{{kind: "create", o: 1, p: -1}, {kind: "create", o: 2, p: 1}},
+		{{kind: "create", o: 1, p: 3}, {kind: "put", o: 1, n: 2, v: num(3)}},
+	}
+	tails := [][]op{
+		{{kind: "put", o: 0, n: 1, v: num(2)}, {kind: "put", o: 0, n: 0, v: num(5)}, {kind: "delete", o: 3, n: 0}},
+		{{kind: "put", o: 2, n: 2, v: num(3)}, {kind: "forindel", o: 2, atN: 2, o2: 3, delN: 0}, {kind: "delete", o: 0, n: 0}},
+		{{kind: "define", o: 0, n: 0, d: desc{hasValue: true, value: num(9), e: 2}}, {kind: "delete", o: 3, n: 0}, {kind: "put", o: 1, n: 0, v: num(6)}},
+	}
+	var out [][]op
+	for i, in := range installs {
+		for j, sh := range shapes {
+			for order := 0; order < 2; order++ {
+				var h []op
+				if order == 0 {
+					h = append(append(h, in...), sh...)
+				} else {
+					h = append(append(h, sh...), in...)
+				}
+				h = append(h, tails[(i+j+order)%len(tails)]...)
+				out = append(out, h)
+			}
+		}
+	}
+	return out
+}
+
 func bucketOf(ops []op) string {
 	seen := map[string]bool{}
 	for _, o := range ops {
@@ -892,7 +944,7 @@ func (g *gen) emit(ops []op, bucket string) {
 
 func runC07(env *Env) {
 	env.Import = "Otto.C07.Corr"
-	env.Rule = "histories of defineProperty/defineProperties/create/put/delete/freeze/seal/preventExtensions/for-in-with-delete over 3 variables, 4 names and re-wired prototype links, descriptors from the full product (absent/true/false attributes, value, get/set absent/undefined/function/not callable, contradictory ones, truthy/falsy spellings, inherited fields); after every operation its result and a snapshot of every own descriptor, in, hasOwnProperty, propertyIsEnumerable, [[Get]], keys, getOwnPropertyNames, for-in, isExtensible/isSealed/isFrozen of the three variables; plus the two-step product stored shape x descriptor (sampled in quick, exhaustive in thorough), SameValue boundary pairs (NaN, +0, -0, ...) on non-writable properties, insertion-order histories (3-4 names, deletions, re-insertions), and histories continued after Otto.Copy() with different operations on the original and on the copy, both observed after every operation; assignments/deletions also spelled through a with statement, descriptors that are not objects, properties objects carrying inherited and non-enumerable entries; non-trivial = distinct history with at least two operations"
+	env.Rule = "histories of defineProperty/defineProperties/create/put/delete/freeze/seal/preventExtensions/for-in-with-delete over 3 variables plus Object.prototype itself (properties installed on it, seen through every chain that ends in it; a pinned family of 48 such histories on every seed), 4 names and re-wired prototype links, descriptors from the full product (absent/true/false attributes, value, get/set absent/undefined/function/not callable, contradictory ones, truthy/falsy spellings, inherited fields); after every operation its result and a snapshot of every own descriptor, in, hasOwnProperty, propertyIsEnumerable, [[Get]], keys, getOwnPropertyNames, for-in, isExtensible/isSealed/isFrozen of the three variables; plus the two-step product stored shape x descriptor (sampled in quick, exhaustive in thorough), SameValue boundary pairs (NaN, +0, -0, ...) on non-writable properties, insertion-order histories (3-4 names, deletions, re-insertions), and histories continued after Otto.Copy() with different operations on the original and on the copy, both observed after every operation; assignments/deletions also spelled through a with statement, descriptors that are not objects, properties objects carrying inherited and non-enumerable entries; non-trivial = distinct history with at least two operations"
 	g := &gen{env: env}
 	for _, h := range pinned() {
 		g.emit(h, "pinned")
@@ -902,6 +954,16 @@ func runC07(env *Env) {
 		pre := []op{{kind: "put", o: 0, n: 0, v: num(1)}, {kind: "put", o: 0, n: 1, v: num(2)}, {kind: "put", o: 0, n: 2, v: num(3)}}
 		g.emitFork(pre, []forkOp{{true, op{kind: "delete", o: 0, n: 0}}, {true, op{kind: "put", o: 0, n: 3, v: num(5)}},
 			{false, op{kind: "delete", o: 0, n: 1}}, {false, op{kind: "put", o: 0, n: 0, v: num(7)}}}, "runtime-copy")
+	}
+	for _, h := range objectPrototypeFamily() {
+		g.emit(h, "object-prototype")
+	}
+	{
+		// Object.prototype is per runtime: what the copy adds to it must not show in the original
+		num := func(z int) val { return val{4, z} }
+		pre := []op{{kind: "put", o: 3, n: 0, v: num(1)}, {kind: "create", o: 1, p: 0}}
+		g.emitFork(pre, []forkOp{{true, op{kind: "put", o: 3, n: 1, v: num(2)}}, {false, op{kind: "delete", o: 3, n: 0}},
+			{true, op{kind: "define", o: 3, n: 2, d: desc{get: 3, e: 1, c: 1}}}, {false, op{kind: "put", o: 1, n: 0, v: num(7)}}}, "object-prototype")
 	}
 	sh, se := shapes(), seconds()
 	total := len(sh) * len(se) * 3
